@@ -119,6 +119,9 @@ pub enum OctFault {
     /// insert one octet (a blank, a newline) at position class 0 = after the first octet,
     /// 1 = middle, 2 = end: what a re-serialising intermediary does to a structured header
     InsertByte(u8, u8),
+    /// the 8-octet big-endian length of the string in front of it (what a length-prefixed
+    /// framing of the field looks like when the prefix is taken for content)
+    PrependLen8,
 }
 
 impl OctFault {
@@ -131,10 +134,11 @@ impl OctFault {
             OctFault::Replace => "oct_replace",
             OctFault::Remove => "oct_remove",
             OctFault::InsertByte(..) => "oct_insert_blank",
+            OctFault::PrependLen8 => "oct_prepend_length",
         }
     }
     pub fn all() -> Vec<OctFault> {
-        vec![OctFault::Toggle, OctFault::AlterByte(0), OctFault::AlterByte(1), OctFault::AlterByte(2), OctFault::TruncateBy(1), OctFault::ExtendBy(1), OctFault::ExtendBy(3), OctFault::Replace, OctFault::Remove, OctFault::InsertByte(0, b' '), OctFault::InsertByte(1, b' '), OctFault::InsertByte(2, b'\n')]
+        vec![OctFault::Toggle, OctFault::AlterByte(0), OctFault::AlterByte(1), OctFault::AlterByte(2), OctFault::TruncateBy(1), OctFault::ExtendBy(1), OctFault::ExtendBy(3), OctFault::Replace, OctFault::Remove, OctFault::InsertByte(0, b' '), OctFault::InsertByte(1, b' '), OctFault::InsertByte(2, b'\n'), OctFault::PrependLen8]
     }
     pub fn apply(&self, o: &mut Opt, seed: u64) {
         match *self {
@@ -150,6 +154,7 @@ impl OctFault {
             OctFault::ExtendBy(k) => { let mut v = o.take().unwrap_or_default(); v.extend(std::iter::repeat(0u8).take(k)); *o = Some(v); }
             OctFault::Replace => { let n = o.as_ref().map(|v| v.len()).filter(|&n| n > 0).unwrap_or(5); *o = Some(bytes_for(seed, b"replaced", n as u64, n)); }
             OctFault::Remove => { *o = None; }
+            OctFault::PrependLen8 => { let v = o.take().unwrap_or_default(); let mut w = (v.len() as u64).to_be_bytes().to_vec(); w.extend_from_slice(&v); *o = Some(w); }
             OctFault::InsertByte(cls, b) => { let mut v = o.take().unwrap_or_default(); let p = match cls { 0 => 1.min(v.len()), 1 => v.len() / 2, _ => v.len() }; v.insert(p, b); *o = Some(v); }
         }
     }
